@@ -88,6 +88,9 @@ func genTree(r *Rand, depth, maxDepth int, budget *int) TNode {
 		case 1:
 			return TNode{Kind: "lit"}
 		case 2:
+			if r.Chance(1, 3) {
+				return TNode{Kind: "litxform"} // a literal (has a value) that is Transformable too
+			}
 			return TNode{Kind: "xformable"}
 		case 3:
 			return TNode{Kind: "checkable"}
@@ -104,6 +107,8 @@ func genTree(r *Rand, depth, maxDepth int, budget *int) TNode {
 			t.Kind = "walknt"
 		} else if r.Chance(1, 3) {
 			t.Kind = "wrapnt"
+		} else if r.Chance(1, 3) {
+			t.Kind = "litwalk" // a literal (has a value) that is Walkable too (e.g. a folded list that still exposes its parts)
 		}
 	} else if depth > 0 && r.Chance(1, 14) {
 		// a list of alternatives nested below the root (Walkable: only its first element is walked)
@@ -170,11 +175,11 @@ func (*c13Prop) Decode(b []byte) (Case, error) {
 
 func (t *TNode) valid(root bool) error {
 	switch t.Kind {
-	case "term", "lit", "empty", "xformable", "checkable":
+	case "term", "lit", "empty", "xformable", "checkable", "litxform":
 		if len(t.Kids) != 0 {
 			return fmt.Errorf("%s with kids", t.Kind)
 		}
-	case "walkable", "walknt", "wrapnt":
+	case "walkable", "walknt", "wrapnt", "litwalk":
 	case "list":
 		if len(t.Kids) == 0 {
 			return fmt.Errorf("list must not be empty")
@@ -326,6 +331,16 @@ func (n *xformableNode) Transform(userCtx interface{}) (parsley.Node, parsley.Er
 	}
 	return n.run.replacement(n.id), nil
 }
+
+// litXformNode / litWalkNode: user nodes with SEVERAL capabilities - a literal value plus
+// their own Transform / Walk.
+type litXformNode struct{ xformableNode }
+
+func (n *litXformNode) Value() interface{} { return fmt.Sprintf("lx%d", n.id) }
+
+type litWalkNode struct{ walkableNode }
+
+func (n *litWalkNode) Value() interface{} { return fmt.Sprintf("lw%d", n.id) }
 
 type checkableNode struct{ hNode }
 
@@ -533,6 +548,10 @@ func (r *c13Run) build(t *TNode) parsley.Node {
 		n = &wrapNTNode{NonTerminalNode: ast.NewEmptyNonTerminalNode("INNER", parsley.Pos(id), nil), run: r, id: id, kids: kids}
 	case "xformable":
 		n = &xformableNode{hNode{r, id, "xformable", nil}}
+	case "litxform":
+		n = &litXformNode{xformableNode{hNode{r, id, "litxform", nil}}}
+	case "litwalk":
+		n = &litWalkNode{walkableNode{hNode{r, id, "litwalk", kids}}}
 	case "checkable":
 		n = &checkableNode{hNode{r, id, "checkable", nil}}
 	case "list":
@@ -627,7 +646,7 @@ func (m *c13Model) schemaOf(x *mTree) string {
 // walk: Walkable delegate or children first, then the node; stop at the first true.
 func (m *c13Model) walk(x *mTree, visit func(*mTree) bool) bool {
 	switch x.t.Kind {
-	case "walkable", "walknt":
+	case "walkable", "walknt", "litwalk":
 		for i := len(x.kids) - 1; i >= 0; i-- {
 			if m.walk(x.kids[i], visit) {
 				return true
@@ -696,7 +715,7 @@ func (m *c13Model) runCheck(root *mTree) string {
 func (m *c13Model) transform(x *mTree) (*mTree, string) {
 	repl := func() *mTree { return &mTree{t: &TNode{Kind: "repl"}, id: 1000 + x.id} }
 	switch {
-	case x.t.Kind == "xformable":
+	case x.t.Kind == "xformable" || x.t.Kind == "litxform":
 		if m.callback("xform", x.id, "") {
 			return nil, fmt.Sprintf("%d:fault@%d", x.id, x.id)
 		}
@@ -760,6 +779,10 @@ func (m *c13Model) eval(x *mTree) (interface{}, string) {
 		return fmt.Sprintf("r%d", x.id-1000), ""
 	case "lit":
 		return int64(x.id), ""
+	case "litxform":
+		return fmt.Sprintf("lx%d", x.id), ""
+	case "litwalk":
+		return fmt.Sprintf("lw%d", x.id), ""
 	case "empty", "walkable", "xformable", "checkable":
 		return noValue(x.id)
 	case "walknt", "wrapnt":
@@ -870,6 +893,10 @@ func (r *c13Run) shape(n parsley.Node) string {
 		return fmt.Sprintf("%s%d", x.kind, x.id)
 	case *walkableNode:
 		return fmt.Sprintf("walkable%d", x.id)
+	case *litWalkNode:
+		return fmt.Sprintf("litwalk%d", x.id)
+	case *litXformNode:
+		return fmt.Sprintf("litxform%d", x.id)
 	case *walkNTNode:
 		return fmt.Sprintf("walknt%d", x.id)
 	case *wrapNTNode:
@@ -909,6 +936,8 @@ func kidsOfReal(n parsley.Node) []parsley.Node {
 	case ast.NodeList:
 		return x
 	case *walkableNode:
+		return x.kids
+	case *litWalkNode:
 		return x.kids
 	case *walkNTNode:
 		return x.kids
